@@ -59,11 +59,17 @@ static std::string g_scratch;
 inline J result_json(const RunResult &r){ J j = J::obj(); if(!r.tape.empty()){ J t = J::arr(); for(int x:r.tape) t.push(x); j["tape"] = t; } j["ok"] = r.ok; j["cls"] = r.cls; j["msg"] = r.msg; j["fp"] = r.fp; j["hash"] = (unsigned long long)r.hash; j["nt"] = (unsigned long long)r.nt; j["counters"] = r.counters; return j; }
 inline RunResult result_from(const J &j){ RunResult r; { const J &t = j.get("tape"); for(size_t i=0;i<t.size();i++) r.tape.push_back((int)t.a[i].as_int()); } r.ok = j.geti("ok"); r.cls = j.gets("cls"); r.msg = j.gets("msg"); r.fp = j.gets("fp"); r.hash = (uint64_t)j.geti("hash"); r.nt = (uint64_t)j.geti("nt"); r.counters = j.get("counters"); return r; }
 
+#ifdef VERIF_COV
+extern "C" void __gcov_dump(void);
+#define VERIF_COV_DUMP() __gcov_dump()
+#else
+#define VERIF_COV_DUMP() ((void)0)
+#endif
 static std::string *g_cur_seed_line = nullptr;
 inline void fatal_cb(const char *cls,const std::string &msg){
 	RunResult r; r.fail(cls,msg,cls); r.hash = simk::trace_hash();
 	{ const std::string &t = simk::trace_text(); size_t cap = getenv("VERIF_TRACE_CHARS") ? (size_t)atol(getenv("VERIF_TRACE_CHARS")) : 12000; if(!t.empty()) r.msg += "\nTRACE(tail):\n" + (t.size() > cap ? t.substr(t.size()-cap) : t); }
-	if(g_in_child && g_result_fd >= 0){ std::string s = result_json(r).str(); (void)!::write(g_result_fd,s.data(),s.size()); _exit(0); }
+	if(g_in_child && g_result_fd >= 0){ std::string s = result_json(r).str(); (void)!::write(g_result_fd,s.data(),s.size()); VERIF_COV_DUMP(); _exit(0); }
 	// in-process batch: report and die; the python driver restarts the worker after this seed
 	printf("V %s %s\n",g_cur_seed_line ? g_cur_seed_line->c_str() : "?",result_json(r).str().c_str()); fflush(stdout);
 	_exit(3);
@@ -91,6 +97,7 @@ inline RunResult run_forked(Engine &e,const J &plan,int timeout_s = 40){   // a 
 		{ const std::string &t = simk::trace_text(); if(!t.empty()) r.msg += "\nTRACE(tail):\n" + (t.size() > 12000 ? t.substr(t.size()-12000) : t); }
 		std::string s = result_json(r).str();
 		size_t off = 0; while(off < s.size()){ ssize_t n = ::write(pfd[1],s.data()+off,s.size()-off); if(n <= 0) break; off += n; }
+		VERIF_COV_DUMP();
 		_exit(0);
 	}
 	close(pfd[1]);
